@@ -53,7 +53,12 @@ theorem translated_pod_is_the_model (b : UInt8) (x : Bool) (isSome isNone : Byte
     GenPod.load n data = (Pod.load n data).toOption ∧ GenPod.load_mut n data = (Pod.load n data).toOption ∧
     GenPod.option_new inner = inner ∧
     (isSome inner = true → GenPod.option_value isSome isNone (GenPod.option_new inner) = some inner) :=
-  ⟨(GenPod.pod_to_bool_eq b).1, (GenPod.pod_to_bool_eq b).2, rfl, rfl, rfl, rfl, (GenPod.load_eq n data).1,
-   (GenPod.load_eq n data).2, rfl, fun h => (Pod.optValue_spec isSome inner).2 h⟩
+  ⟨(GenPod.pod_to_bool_eq b).1, (GenPod.pod_to_bool_eq b).2, (GenPod.bool_to_pod_eq x).1, (GenPod.bool_to_pod_eq x).2,
+   (GenPod.option_value_eq isSome isNone inner).1, (GenPod.option_value_eq isSome isNone inner).2, (GenPod.load_eq n data).1,
+   (GenPod.load_eq n data).2, rfl,
+   fun h => by
+     have e : GenPod.option_new inner = inner := rfl
+     rw [e, (GenPod.option_value_eq isSome isNone inner).1]
+     exact (Pod.optValue_spec isSome inner).2 h⟩
 
 end Stevia.C15
